@@ -592,7 +592,7 @@ func cachedAuthoritative(c *Ctx, rule string) {
 				okObj, lookup = lhs[1], cs.Call
 			}
 		}
-		if cs.Callee.Name() == "DescribeVSwitchByID" {
+		if cs.Callee.Name() == "DescribeVSwitchByID" || reachesCallee(p, p.FuncOf(cs.Callee), "DescribeVSwitchByID", 3) {
 			cloud = append(cloud, cs.Call)
 		}
 	}
@@ -623,4 +623,24 @@ func cachedAuthoritative(c *Ctx, rule string) {
 		c.Require(rule, "GetByID: the cloud is asked only on a miss", fn, stmt, "!"+okObj.Name(), nil)
 	}
 	_ = info
+}
+
+// reachesCallee: fn calls (transitively through module functions, bounded) a function or
+// method of that name.
+func reachesCallee(p *Prog, fn *FuncInfo, name string, depth int) bool {
+	if fn == nil || depth < 0 {
+		return false
+	}
+	for _, cs := range p.CallsIn(fn) {
+		if cs.Callee == nil {
+			continue
+		}
+		if cs.Callee.Name() == name {
+			return true
+		}
+		if h := p.FuncOf(cs.Callee); h != nil && h != fn && reachesCallee(p, h, name, depth-1) {
+			return true
+		}
+	}
+	return false
 }
